@@ -321,7 +321,7 @@ func rC05ParserGates(w *World, r *Report) {
 				problems = append(problems, "effect "+e.Kind+" at "+w.IPos(in))
 			}
 		}
-		if c, ok := in.(*ssa.Call); ok && calleeName(c) == "sort.Strings" && c.Call.Args[0] == ssa.Value(mc) {
+		if c, ok := in.(*ssa.Call); ok && (calleeName(c) == "sort.Strings" || calleeBase(c) == "slices.Sort") && c.Call.Args[0] == ssa.Value(mc) {
 			sorted = true
 		}
 		if ret, ok := in.(*ssa.Return); ok {
